@@ -385,11 +385,7 @@ def check_asm(ents, cfg, res, counters=None):
         want = [('title', M.flat_tokens(e.title, 'asm'))]
         want += [('desc[{}]'.format(k), M.flat_tokens(p, 'asm')) for k, p in enumerate(e.desc)]
         if e.regs:
-            rt = []
-            for r in e.regs:
-                a, b = _reg_tokens(r, 'asm')
-                rt += a + b
-            want.append(('regs', rt))
+            want.append(('regs', None))         # compared register by register in check_regs
         want += [('start[{}]'.format(k), M.flat_tokens(p, 'asm')) for k, p in enumerate(e.groups[0].mid)]
         hb = []     # blocks of AsmLines
         cur = []
@@ -579,16 +575,15 @@ def _item_short(x):
 
 
 def check_html(ents, pages, counters=None):
-    """pages: dict address -> html text or None."""
+    """pages: dict address -> list of page events (M.read_page) or None."""
     probs = []
     if counters is None:
         counters = {}
     for ei, e in enumerate(ents):
-        html = pages.get(e.addr)
-        if html is None:
-            probs.append(Prob(ei, 'page', 'missing', 'no entry page asm/{}.html'.format(e.addr)))
+        got = pages.get(e.addr)
+        if got is None:
+            probs.append(Prob(ei, 'page', 'missing', 'no entry page for {}'.format(e.addr)))
             continue
-        got = M.read_page(html)
         for x in got:
             if x[0] == 'instr' and x[4] > 1:
                 counters['html_rowspan_gt1'] = counters.get('html_rowspan_gt1', 0) + 1
@@ -659,9 +654,21 @@ def run_doc(seam, key, cfg, seed, stats=None):
             probs = [Prob(None, 'tool', 'crash', 'skool2html failed: {} {}'.format(res.exc, res.err[-300:]))]
         else:
             pages = {}
-            for e in ents:
-                p = os.path.join(outdir, 'c18h', 'asm', '{}.html'.format(e.addr))
-                pages[e.addr] = tools.read_file(p, binary=False) if os.path.exists(p) else None
+            if cfg.get('single_page'):
+                # one page holds every entry: split its events at the entry titles ("<address>: <title>")
+                p = os.path.join(outdir, 'c18h', 'asm.html')
+                events = M.read_page(tools.read_file(p, binary=False)) if os.path.exists(p) else []
+                cur = None
+                for ev in events:
+                    if ev[0] == 'title':
+                        a = ev[1][0].rstrip(':') if ev[1] else ''
+                        cur = pages.setdefault(int(a) if a.isdigit() else a, [])
+                    if cur is not None:
+                        cur.append(ev)
+            else:
+                for e in ents:
+                    p = os.path.join(outdir, 'c18h', 'asm', '{}.html'.format(e.addr))
+                    pages[e.addr] = M.read_page(tools.read_file(p, binary=False)) if os.path.exists(p) else None
             probs = check_html(ents, pages, stats.counters if stats is not None else None)
         shutil.rmtree(outdir, ignore_errors=True)
     return ents, probs
